@@ -379,9 +379,19 @@ DynCycGraphs == {
            [St1(2, <<"o2">>, <<"s1">>, <<"dd">>) EXCEPT !.dd = "dd", !.ddo = <<"x2">>],
            [St1(3, <<"o3">>, <<"s1">>, <<"dd">>) EXCEPT !.dd = "dd", !.ddi = <<"x2">>, !.ddo = <<"x3">>],
            St1(4, <<"o4">>, <<"o3">>, <<>>) >>) }
+\* cycles closed by dyndep information through every output of a multi-output statement, every input kind of the
+\* consumer, a consumer chain of length one or two, with the dyndep file a source or produced during the build
+DynCycGen ==
+  { Graph(<< (IF pr THEN [St1(1, <<"dd">>, <<"s1">>, <<>>) EXCEPT !.mkdd = "dd"] ELSE St1(1, <<"o1">>, <<"s1">>, <<>>)),
+             [St1(2, outs2, <<"s1">>, <<"dd">>) EXCEPT !.dd = "dd", !.ddi = <<IF len = 1 THEN "o3" ELSE "o4">>],
+             [Stmt0 EXCEPT !.id = 3, !.outs = <<"o3">>, !.ex = IF kind = "ex" THEN <<via>> ELSE <<"s1">>, !.im = IF kind = "im" THEN <<via>> ELSE <<>>,
+                           !.oo = IF kind = "oo" THEN <<via>> ELSE <<>>] >>
+           \o (IF len = 2 THEN <<St1(4, <<"o4">>, <<"o3">>, <<>>)>> ELSE <<>>)) :
+      pr \in BOOLEAN, outs2 \in {<<"o2">>, <<"o2", "p2">>, <<"o2", "p2", "q2">>}, via \in {"o2", "p2", "q2"}, kind \in {"ex", "im", "oo"}, len \in {1, 2} }
+DynCycOK == {gr \in DynCycGen : \E k \in DOMAIN gr.stmts[2].outs : gr.stmts[2].outs[k] \in ToSet(gr.stmts[3].ex \o gr.stmts[3].im \o gr.stmts[3].oo)}
 FamCyc(K, CH) ==
   UNION { {Scn(gr, <<Build(t, j, 1), Build(t, j, 1)>>) : j \in {1, 2}, t \in {<<o>> : o \in AllOutsG(gr)} \cup {SetToSeq(AllOutsG(gr))}} :
-          gr \in CycGraphs(K) \cup DynCycGraphs }
+          gr \in CycGraphs(K) \cup DynCycGraphs \cup DynCycOK }
 
 (***************************************************************************)
 (* C19 (dry run) and C01 (edits while commands run).                        *)
